@@ -71,9 +71,11 @@ def mctx? (args : List String) : Option (MCtx × List String) := do
   | step :: m15 :: rest' => do some (⟨c, ← step.toInt?, ← str? m15⟩, rest')
   | _ => none
 
-def stepName : Step → String
-  | .lra _ _ => "lra" | .shortcut _ _ => "shortcut" | .unwrapFn _ _ _ => "unwrapFn" | .agg _ _ => "agg"
-  | .topk _ _ => "topk" | .cmp _ => "cmp"
+def stepNames : Step → List String
+  | .lra _ _ => ["lra"] | .shortcut _ _ => ["shortcut"]
+  | .unwrapFn _ _ g => (if g.isSome then ["by"] else []) ++ ["unwrapFn"]
+  | .agg _ g => (if g.isSome then ["by"] else []) ++ ["agg"]
+  | .topk _ _ => ["topk"] | .cmp _ => ["cmp"]
 
 /-! ### concrete oracles for the semantic search: any fixed functions do, both sides use the same ones -/
 def isSub (needle hay : Bytes) : Bool := decide (needle <:+: hay)
@@ -158,7 +160,8 @@ def handle : List String → Option String
   | "c08order" :: args => do
     let (q, rest') ← query? args
     if rest'.isEmpty then
-      some ((if takesShortcut q then "shortcut:" else "plain:") ++ ",".intercalate ((planSteps q).map stepName))
+      some ((if takesShortcut q then "shortcut:" else "plain:") ++ ",".intercalate ((planSteps q).flatMap stepNames) ++
+        s!";labels={(labelConds q.rangeAgg.sel).length};lines={if takesShortcut q then 0 else (lineFilters q.rangeAgg.sel).length}")
     else none
   | _ => none
 end Driver.C08
